@@ -66,8 +66,25 @@ def r1_or_default_does_not_change_the_key(ctx):
             ctx.ob("C09.R1", f"{CORE}::destructure-binding :map::{k.val}::key template {ka} / {kb}", CORE, i.line, ok,
                    "" if ok else f"with an :or default the key is looked up as {ka}, without one as {kb}: adding a default changes which key is read",
                    witness="(let [{a 'k :or {a 1}} {'k 5}] a) => 1")
+    # whether a default applies must be decided by *presence* in the :or map, never by the truth
+    # value of the default itself ({:or {a false}} / {:or {a nil}} are legitimate)
+    for f in L.walk(m):
+        h = L.head(f)
+        test = None
+        if h in ("if-let", "when-let", "if-some", "when-some") and len(f.items) > 1 and isinstance(f.items[1], L.Vec) and len(f.items[1].items) >= 2:
+            test = f.items[1].items[1]
+        elif h in ("if", "when", "if-not", "when-not", "cond->") and len(f.items) > 1:
+            test = f.items[1]
+        if test is None:
+            continue
+        reads_default = (L.head(test) == "get" and len(test.items) >= 2 and L.is_sym(test.items[1], "ors")) or (L.head(test) == "ors")
+        if reads_default:
+            n += 1
+            ctx.ob("C09.R1", f"{CORE}::destructure-binding :map::{h} on `{test.text()}`", CORE, f.line, h in ("if-some", "when-some") and False,
+                   f"`({h} ... {test.text()} ...)` decides by the truth value of the default: an :or default of false (or nil) is ignored and the name is bound to nil",
+                   witness="(let [{:keys [a] :or {a false}} {}] a) => nil instead of false")
     if n == 0:
-        raise AnalysisError("no (if (contains? ors ..) ..) builders found in destructure-binding :map")
+        raise AnalysisError("no :or default builders found in destructure-binding :map")
 
 
 @rule("C09.R2", floor=4)
